@@ -237,3 +237,71 @@ def trait_access(shapes, L):
                         lines.append(f"bounds r0 {kind} {mode} {sb} {eb}")
             out.append(Scenario(sh, lines, "trait-access"))
     return out
+
+
+# ------------------------------------------------------------------ capacity contract (C12)
+
+CAP_SHAPES = ["Two", "Flat4", "One", "Heap", "NMid", "Deep", "DrH", "NLast"]
+GROW_OPS = ["push", "push", "push", "extend", "insert", "append", "extend_from_slice", "resize", "collect", "split_off", "to_vec"]
+
+
+def cap_scenarios(shapes, count, nops, seed):
+    """histories mixing growth, reserve*, shrink_to_fit, with_capacity with capacity queries and promises"""
+    rng = random.Random(seed)
+    out = []
+    # systematic: with_capacity(n) / reserve(n) / reserve_exact(n) then the promised pushes, after 0..9 pushes
+    for sh in shapes:
+        for pre in range(0, 10):
+            for n in (0, 1, 3, 4, 5, 8, 9, 17):
+                base = [setup(pre)] if pre else ["new r0"]
+                out.append(Scenario(sh, base + ["capacity r0", "caps r0", "promise r0", "len r0"], "cap-promise"))
+                out.append(Scenario(sh, [f"with_capacity r0 {n}"] + [f"push r0 {i}" for i in range(min(pre, 3))] + ["caps r0", f"promise r0 {max(0, n - min(pre, 3))}", "capacity r0", "promise r0"], "with_capacity"))
+                out.append(Scenario(sh, base + [f"reserve r0 {n}", "caps r0", f"promise r0 {n}", "capacity r0", "promise r0"], "reserve"))
+                out.append(Scenario(sh, base + [f"reserve_exact r0 {n}", "caps r0", f"promise r0 {n}", "capacity r0", "promise r0"], "reserve_exact"))
+                out.append(Scenario(sh, base + [f"reserve r0 {n}", "shrink_to_fit r0", "caps r0", "capacity r0", "promise r0"], "shrink"))
+    for k in range(count):
+        sh = shapes[k % len(shapes)]
+        cl = sh not in NOCLONE
+        lens = [0, 0, 0]
+        lines = []
+        t = 0
+        for _ in range(nops):
+            r = rng.randrange(2)
+            x = rng.random()
+            if x < 0.45:
+                op = rng.choice(GROW_OPS)
+                if op in CLONE_OPS and not cl: op = "push"
+                t = (t + 1) % 32
+                n = lens[r]
+                if n > 40 and op not in ("split_off",): op = "truncate"
+                if op == "push": lines.append(f"push r{r} {t}"); lens[r] += 1
+                elif op == "extend": m = rng.randrange(6); lines.append(f"extend r{r} {tl(tags(m, t))}"); lens[r] += m
+                elif op == "insert": lines.append(f"insert r{r} {rng.randrange(n + 1)} {t}"); lens[r] += 1
+                elif op == "append": lines.append(f"append r{r} r{1 - r}"); lens[r] += lens[1 - r]; lens[1 - r] = 0
+                elif op == "extend_from_slice": lines.append(f"extend_from_slice r{r} r{1 - r}"); lens[r] += lens[1 - r]
+                elif op == "resize": m = rng.randrange(0, 14); lines.append(f"resize r{r} {m} {t}"); lens[r] = m
+                elif op == "collect": m = rng.randrange(0, 10); lines.append(f"collect r{r} {tl(tags(m, t))}"); lens[r] = m
+                elif op == "split_off": i = rng.randrange(n + 1); lines.append(f"split_off r{r} {i} r{1 - r}"); lens[1 - r] = n - i; lens[r] = i
+                elif op == "to_vec": lines.append(f"to_vec r{r} r{1 - r}"); lens[1 - r] = n
+                elif op == "truncate": i = rng.randrange(n + 1); lines.append(f"truncate r{r} {i}"); lens[r] = i
+            elif x < 0.6:
+                op = rng.choice(["reserve", "reserve_exact"]); n = rng.choice([0, 1, 2, 3, 5, 8, 13, 30])
+                lines.append(f"{op} r{r} {n}")
+                if rng.random() < 0.5: lines += [f"caps r{r}", f"promise r{r} {n}"]; lens[r] += min(n, 64)
+            elif x < 0.68:
+                lines.append(f"shrink_to_fit r{r}")
+            elif x < 0.75:
+                n = rng.choice([0, 1, 4, 7, 16]); lines.append(f"with_capacity r{r} {n}"); lens[r] = 0
+                if rng.random() < 0.5: lines.append(f"promise r{r} {n}"); lens[r] = min(n, 64)
+            elif x < 0.8:
+                op = rng.choice(["pop", "clear", "swap_remove", "remove"])
+                if op in ("pop", "clear"): lines.append(f"{op} r{r}"); lens[r] = 0 if op == "clear" else max(0, lens[r] - 1)
+                elif lens[r] > 0: lines.append(f"{op} r{r} {rng.randrange(lens[r])}"); lens[r] -= 1
+            else:
+                lines += [f"capacity r{r}", f"caps r{r}"]
+                if rng.random() < 0.5 and lens[r] < 40:
+                    lines.append(f"promise r{r}")
+                    lens[r] = None  # unknown until the promise ran; resynchronise with a clear
+                    lines.append(f"clear r{r}"); lens[r] = 0
+        out.append(Scenario(sh, lines, "cap-random"))
+    return out
